@@ -20,7 +20,17 @@ def random_cases(ctx, n, required, **kw):
         r = g.recipe()
         for f in gen.features(r): ctx.region(f)
         cases.append({"recipe": r, "seed": ctx.rng.randrange(1 << 30), "leaf_str": bool(i % 2), "src": "random", "style": (i // 2) % 4})
+    # a region the batch happened to miss is topped up (the generator is asked again until a recipe with that feature comes)
     missing = [f for f in required if not ctx.regions.get(f)]
+    tries = 0
+    while missing and tries < 200 * max(n, 50):
+        tries += 1
+        r = g.recipe()
+        fs = gen.features(r)
+        if any(f in fs for f in missing):
+            for f in fs: ctx.region(f)
+            cases.append({"recipe": r, "seed": ctx.rng.randrange(1 << 30), "leaf_str": False, "src": "random", "style": 0})
+            missing = [f for f in required if not ctx.regions.get(f)]
     if missing:
         raise Machinery("random batch did not reach regions %s" % missing)
     return cases
